@@ -55,8 +55,10 @@ pub struct Qcow2Dev<T> {
     // metadata flush whether something written earlier (e.g. slices written
     // back by a cache eviction) still has to be synced
     unsynced: AtomicBool,
-    // new data clusters whose zeroing failed: they are mapped already, so the
-    // next metadata flush has to zero them before the mapping can land
+    // new data clusters which are mapped (by the plain write path) but not
+    // zeroed yet: normally the write that mapped them zeroes them right away,
+    // but it may fail before it gets there, or its zeroing may fail. The next
+    // metadata flush zeroes what is left here before a mapping can land.
     zero_failed: std::sync::Mutex<std::collections::HashSet<u64>>,
     flush_lock: AsyncMutex<()>,
 
@@ -158,6 +160,7 @@ impl<T: Qcow2IoOps> Qcow2Dev<T> {
         let mut map = self.new_cluster.write().await;
 
         map.remove(&cluster);
+        self.zero_failed.lock().unwrap().remove(&cluster);
     }
 
     /// Setup the backing Qcow2 device
